@@ -15,6 +15,7 @@ import vlib
 from vlib import ToolError, VERIF, WORK, SPEC, PUPPET_BUILD, sh, log
 
 SESS_SRC = VERIF / "puppets" / "sess"
+REFTRACE_VERSION = "v2"      # bump when reftrace.rs or the range computation changes (cache key)
 TOOLCHAINS = {"1.89": "+1.89", "1.95": "+stable", "nightly": "+nightly"}
 
 
@@ -59,12 +60,17 @@ def nm_symbols(exe):
 
 
 def user_funcs(exe, crate):
-    """[(name, lo, hi)] of the functions whose demangled path starts with `<crate>::`."""
+    """[(name, lo, hi)] of the functions whose demangled path starts with `<crate>::` (every
+    instantiation: several symbols may share a demangled name)."""
     res = []
-    for name, (a, s) in nm_symbols(exe).items():
-        if (name.startswith(crate + "::") or name.startswith("<" + crate + "::")) and s > 0:
-            res.append((name, a, a + s))
-    return sorted(res, key=lambda x: x[1])
+    _, so, _ = sh(["nm", "-S", "-C", "--defined-only", str(exe)])
+    for line in so.splitlines():
+        p = line.split(None, 3)
+        if len(p) == 4 and re.fullmatch(r"[0-9a-f]+", p[0]) and re.fullmatch(r"[0-9a-f]+", p[1]) and p[2] in "tTwW":
+            name, a, s = p[3], int(p[0], 16), int(p[1], 16)
+            if (name.startswith(crate + "::") or name.startswith("<" + crate + "::")) and s > 0:
+                res.append((name, a, a + s))
+    return sorted(set(res), key=lambda x: x[1])
 
 
 _ROW = re.compile(r"^0x([0-9a-f]+)\s+(\d+)\s+(\d+)\s+(\d+)\s+\d+\s+\d+\s*(.*)$")
@@ -148,7 +154,7 @@ def ref_trace(exe, crate, maxsteps=400000):
         raise ToolError(f"{exe}: no {crate}::main")
     tick = syms.get("TICK", (0, 0))[0]
     ranges = ",".join(f"{lo:x}-{hi:x}" for _, lo, hi in funcs)
-    out = WORK / "sess" / (Path(exe).parent.name + ".reftrace")
+    out = WORK / "sess" / (Path(exe).parent.name + f".{REFTRACE_VERSION}.reftrace")
     out.parent.mkdir(parents=True, exist_ok=True)
     if not out.exists():
         sh([str(rt), str(exe), str(out), "--ranges", ranges, "--main", f"{syms[crate + '::main'][0]:x}",
